@@ -728,10 +728,12 @@ func execC12[K comparable, V any](c pcCase, cd pcCodec[K, V], x *verifkit.Ctx) (
 	loadWall := vkWall() + c.Elapsed
 	loads := int64(0)
 	hitHeader, truncLast := false, false
+	lastLoadedClean := false // the last judged load under the saved version returned nil
 
 	judge := func(what string, damaged []byte, firstDamage int, mustFail bool) *verifkit.Failure {
 		loads++
 		r := pcLoad[K, V](damaged, 7, c.MaxSize, loadWall)
+		lastLoadedClean = r.err == nil && r.panicked == nil
 		if r.panicked != nil {
 			return verifkit.Failf("corrupt/panic", "%s: LoadCache panicked: %v", what, r.panicked)
 		}
@@ -814,6 +816,11 @@ func execC12[K comparable, V any](c pcCase, cd pcCodec[K, V], x *verifkit.Ctx) (
 		}
 		return false
 	}
+	type silentFault struct {
+		off int
+		nb  byte
+	}
+	var silent []silentFault // single faults after which the stream still loaded without error
 	for off := 0; off < len(stream); off++ {
 		if !full && off%stride != 0 && !inHeader(off) {
 			continue
@@ -835,7 +842,41 @@ func execC12[K comparable, V any](c pcCase, cd pcCodec[K, V], x *verifkit.Ctx) (
 			if f := judge(fmt.Sprintf("byte %d: %#02x -> %#02x (sub %d)", off, stream[off], nb, si), buf, off, false); f != nil {
 				return f
 			}
+			if lastLoadedClean && inHeader(off) {
+				silent = append(silent, silentFault{off, nb})
+			}
 		}
+	}
+	// 2b. two faults: a single fault that was tolerated silently (it may have switched a protection
+	// off: a renamed descriptor field, a zeroed header field) combined with a second fault anywhere
+	if len(silent) > 0 {
+		step1 := len(silent)/40 + 1
+		step2 := len(stream)/250 + 1
+		pairs := int64(0)
+		for i := 0; i < len(silent); i += step1 {
+			sf := silent[i]
+			for off := 0; off < len(stream); off += step2 {
+				if off == sf.off {
+					continue
+				}
+				for _, mask := range []byte{0x01, 0x80} {
+					copy(buf, stream)
+					buf[sf.off] = sf.nb
+					buf[off] ^= mask
+					first := sf.off
+					if off < first {
+						first = off
+					}
+					pairs++
+					if f := judge(fmt.Sprintf("two faults: byte %d %#02x -> %#02x (tolerated alone) and byte %d ^ %#02x", sf.off, stream[sf.off], sf.nb, off, mask), buf, first, false); f != nil {
+						f.Sig += "/two-faults"
+						return f
+					}
+				}
+			}
+		}
+		verifkit.AddCount("c12_two_fault_loads", pairs)
+		x.Class("two-fault-combinations")
 	}
 	// 3. drawn multi-byte damage
 	for _, d := range c.Damage {
@@ -924,7 +965,7 @@ func TestVerifC12(t *testing.T) {
 	vkOwnPipeline()
 	verifkit.Run(t, verifkit.Spec[pcCase]{
 		ID: "C12", Gen: genPersist(true), Exec: dispatchC12,
-		Rule:        "C12: rapid draws a cache (types, MaxSize 1..30, saver uptime 0..30 days, build script with TTLs, elapsed time before the load) and 4..12 multi-byte damages; for each generated stream the executor enumerates EVERY truncation offset, EVERY single-bit flip and the substitutions {0x00,0xFF,+1} at EVERY offset (streams <= 4 KiB; sampled plus all header/type-descriptor offsets otherwise), the drawn multi-byte damages, and the duplication, removal and pairwise swap of whole gob messages; each damaged stream is loaded under the saved version and under another version; a stream is non-trivial when faults hit block header fields or gob type descriptors, or truncations fell inside the last message (always true for enumerated streams; distinct = distinct streams)",
+		Rule:        "C12: rapid draws a cache (types, MaxSize 1..30, saver uptime 0..30 days, build script with TTLs, elapsed time before the load) and 4..12 multi-byte damages; for each generated stream the executor enumerates EVERY truncation offset, EVERY single-bit flip and the substitutions {0x00,0xFF,+1} at EVERY offset (streams <= 4 KiB; sampled plus all header/type-descriptor offsets otherwise), pairs of faults (each single header/descriptor fault that was tolerated silently combined with a bit flip at ~250 positions spread over the stream), the drawn multi-byte damages, and the duplication, removal and pairwise swap of whole gob messages; each damaged stream is loaded under the saved version and under another version; a stream is non-trivial when faults hit block header fields or gob type descriptors, or truncations fell inside the last message (always true for enumerated streams; distinct = distinct streams)",
 		Assumptions: append([]string{"gob's length-prefixed framing is parsed by the harness to locate messages and the end of the metadata message"}, pcAssumptions...),
 	})
 }
